@@ -955,24 +955,62 @@ func (env *SEnv) builtin(name string, args []*SExpr, e *SExpr) *SVal {
 		if nv.CI == nil || nv.CI.Int64() < 1 || nv.CI.Int64() > 64 {
 			sfail("hamming needs a literal bit count 1..64")
 		}
+		n := int(nv.CI.Int64())
+		var srt *Sort
 		if vc.isBV() {
 			a, b = env.unify(a, b)
-			w := a.T.S.W
-			sum := BVLit(big.NewInt(0), 64)
-			for k := 0; k < int(nv.CI.Int64()) && k < w; k++ {
-				ba := App(fmt.Sprintf("(_ extract %d %d)", k, k), SBV(1), a.T)
-				bb := App(fmt.Sprintf("(_ extract %d %d)", k, k), SBV(1), b.T)
-				sum = App("bvadd", SBV(64), sum, Ite(Eq(ba, bb), BVLit(big.NewInt(0), 64), BVLit(big.NewInt(1), 64)))
+			srt = a.T.S
+		} else {
+			srt = SInt
+		}
+		build := func(x, y *Term) *Term {
+			if vc.isBV() {
+				w := x.S.W
+				sum := BVLit(big.NewInt(0), 64)
+				for k := 0; k < n && k < w; k++ {
+					ba := App(fmt.Sprintf("(_ extract %d %d)", k, k), SBV(1), x)
+					bb := App(fmt.Sprintf("(_ extract %d %d)", k, k), SBV(1), y)
+					sum = App("bvadd", SBV(64), sum, Ite(Eq(ba, bb), BVLit(big.NewInt(0), 64), BVLit(big.NewInt(1), 64)))
+				}
+				return sum
 			}
-			return &SVal{T: sum, Go: types.Typ[types.Int]}
+			var sum *Term = IntLit64(0)
+			for k := 0; k < n; k++ {
+				ba := App("mod", SInt, App("div", SInt, x, IntLit(pow2(k))), IntLit64(2))
+				bb := App("mod", SInt, App("div", SInt, y, IntLit(pow2(k))), IntLit64(2))
+				sum = App("+", SInt, sum, Ite(Eq(ba, bb), IntLit64(0), IntLit64(1)))
+			}
+			return foldInt(sum)
 		}
-		var sum *Term = IntLit64(0)
-		for k := 0; k < int(nv.CI.Int64()); k++ {
-			ba := App("mod", SInt, App("div", SInt, a.T, IntLit(pow2(k))), IntLit64(2))
-			bb := App("mod", SInt, App("div", SInt, b.T, IntLit(pow2(k))), IntLit64(2))
-			sum = App("+", SInt, sum, Ite(Eq(ba, bb), IntLit64(0), IntLit64(1)))
+		// literal operands: evaluate; otherwise the distance is a named function with its definition stated once per
+		// application (ground) or once as an axiom (applications under a quantifier), so that proofs that only need
+		// "the same distance" go through by congruence instead of comparing two adder trees
+		_, la := intLitVal(a.T)
+		_, lb := intLitVal(b.T)
+		if (la && lb) || vc.lemmaMode {
+			return &SVal{T: build(a.T, b.T), Go: types.Typ[types.Int]}
 		}
-		return &SVal{T: foldInt(sum), Go: types.Typ[types.Int]}
+		resSort := SInt
+		if vc.isBV() {
+			resSort = SBV(64)
+		}
+		fname := fmt.Sprintf("hamming!%d!%s", n, srt.Key())
+		vc.declareFun(fname, []*Sort{srt, srt}, resSort)
+		app := App(fname, resSort, a.T, b.T)
+		if vc.con != nil && vc.con.Opts["opaque"] == "hamming" {
+			// the proof only needs "the same distance": no definition is given (fewer hypotheses, still sound)
+		} else if mentionsBound(a.T) || mentionsBound(b.T) {
+			if !vc.declSeen["ax:"+fname] {
+				vc.declSeen["ax:"+fname] = true
+				x, y := Atom("x!h", srt), Atom("y!h", srt)
+				fx := App(fname, resSort, x, y)
+				vc.facts = append(vc.facts, Forall([]*Term{x, y}, Eq(fx, build(x, y)), []*Term{fx}))
+			}
+		} else if key := "def:" + app.String(); !vc.declSeen[key] {
+			vc.declSeen[key] = true
+			vc.facts = append(vc.facts, Eq(app, build(a.T, b.T)))
+		}
+		return &SVal{T: app, Go: types.Typ[types.Int]}
 	case "lowmask32":
 		need(1)
 		x := env.materialize(env.tr(args[0]), types.Typ[types.Uint])
